@@ -91,7 +91,7 @@ func c17(c *Ctx) {
 			}
 			var g *growth
 			for i := range table {
-				if table[i].method == cc.Method.Name() {
+				if table[i].method == engine.MethodName(cc.Method) {
 					g = &table[i]
 				}
 			}
@@ -144,7 +144,7 @@ func c17(c *Ctx) {
 			if !cc.IsInvoke() || !engine.IsNamed(cc.Value.Type(), "internal/state", "Connector") {
 				continue
 			}
-			g, ok := remote[cc.Method.Name()]
+			g, ok := remote[engine.MethodName(cc.Method)]
 			if !ok {
 				continue
 			}
@@ -208,7 +208,7 @@ func c17(c *Ctx) {
 			return false
 		}
 		for i := range table {
-			if table[i].method == cc.Method.Name() {
+			if table[i].method == engine.MethodName(cc.Method) {
 				return true
 			}
 		}
@@ -483,7 +483,7 @@ func calleeOfSite(c *Ctx, cs engine.CallSite) *ssa.Function {
 // isReadOn: x is (a component of) the result of tx.<read>(…) on the given transaction value.
 func isReadOn(x ssa.Value, read string, tx ssa.Value) bool {
 	call, ok := x.(*ssa.Call)
-	if !ok || !call.Call.IsInvoke() || call.Call.Method.Name() != read {
+	if !ok || !call.Call.IsInvoke() || engine.MethodName(call.Call.Method) != read {
 		return false
 	}
 	o := txOrigin(call.Call.Value)
@@ -564,7 +564,7 @@ func sameMailboxAndBatch(f *ssa.Function, chk engine.CallSite, ins ssa.CallInstr
 		}
 	}
 	want := chk.Common().Args[2]
-	switch ic.Method.Name() {
+	switch engine.MethodName(ic.Method) {
 	case "AddMessagesToMailbox":
 		list := ic.Args[2]
 		for _, x := range arithLeaves(want) {
@@ -833,7 +833,7 @@ func (c *Ctx) roomIsMeasuredAfterRemovals(rule string) {
 			if sc := cc.StaticCallee(); sc != nil {
 				name = engine.ShortName(sc)
 			} else if cc.IsInvoke() {
-				name = cc.Method.Name()
+				name = engine.MethodName(cc.Method)
 			}
 			switch {
 			case name == "checkMailboxHasRoom":
